@@ -13,6 +13,9 @@ Decided:
   C17.wasted  both decoders apply the wasted-bits shift to every subframe type (constant, verbatim, fixed, LPC)
   C17.resid   residual folding/unfolding is the same zig-zag in the three places it is written
   C17.panic   engine B over the structural writers
+  C17.wide    both mid-side reconstructions (ordinary and 33-bit) take the parity from |side| % 2
+  (C17.wasted also: effective depth in every arm, shift guard `wasted > 0`, fixed shift 0, LPC shift from the stream;
+   C17.resid also: both folding sites use a known form of the zig-zag map)
 Not decided: byte identity of the re-serialisation; sample equality with the streaming decoder (value-level).
 """
 from rules.common import *
